@@ -7,6 +7,7 @@
 import GdModel.Driver.Util
 import GdModel.Driver.Conv
 import GdModel.Field.Basic
+import GdModel.Field.Extents
 import GdModel.Bytes.Order
 namespace GdModel.Driver
 open GdModel.Num GdModel.Field GdModel.Bytes
@@ -302,14 +303,14 @@ def handleGet (spec : Bool) (db : DB) (args : List String) : String :=
     match ff.toInt?, fs.toInt?, nf.toNat?, ns.toNat? with
     | some ff, some fs, some nf, some ns =>
       match resolve db recurseLimit code with
-      | .error .badCode => "get n=0 e=-5 d="
-      | .error .recurse => "get n=0 e=-14 d="
+      | .error .badCode => "get n=0 e=-3 d="
+      | .error .recurse => "get n=0 e=-10 d="
       | .error (.unsupported w) => "unsupported " ++ w
       | .ok f =>
         let spf := f.spf
         let s : Int := ff * spf + fs
         let n : Nat := nf * spf + ns
-        if s < 0 then "get n=0 e=-19 d=" else
+        if s < 0 then "get n=0 e=-8 d=" else
         let out :=
           if spec then
             let rec go (fuel : Nat) (k : Int) (acc : List Float) : List Float :=
@@ -331,8 +332,8 @@ def handleEof (spec : Bool) (db : DB) (args : List String) : String :=
   match args with
   | [code] =>
     match resolve db recurseLimit code with
-    | .error .badCode => "eof -5 e=-5"
-    | .error .recurse => "eof -14 e=-14"
+    | .error .badCode => "eof -3 e=-3"
+    | .error .recurse => "eof -10 e=-10"
     | .error (.unsupported w) => "unsupported " ++ w
     | .ok f =>
       -- gd_eof reports max 0 of the pointwise end-of-field; INDEX-only fields have none
@@ -341,13 +342,29 @@ def handleEof (spec : Bool) (db : DB) (args : List String) : String :=
       | none => "eof -12 e=-12"
   | _ => "bad-op"
 
+def handleBof (spec : Bool) (db : DB) (args : List String) : String :=
+  match args with
+  | [code] =>
+    match resolve db recurseLimit code with
+    | .error .badCode => "bof -3 e=-3"
+    | .error .recurse => "bof -10 e=-10"
+    | .error (.unsupported w) => "unsupported " ++ w
+    | .ok f => s!"bof {if spec then Spec.bof f else Impl.bof f} e=0"
+  | _ => "bad-op"
+
+/-- `nframes`: the reference field is the first RAW field defined -/
+def handleNframes (db : DB) : String :=
+  match db.find? (fun p => match p.2 with | .raw .. => true | _ => false) with
+  | some (_, .raw ty spf foff _ bytes) => s!"nframes {Spec.nframes spf foff (bytes.length / ty.size)} e=0"
+  | _ => "nframes 0 e=0"
+
 def handleSpf (db : DB) (args : List String) : String :=
   match args with
   | [code] =>
     match resolve db recurseLimit code with
     | .ok f => s!"spf {f.spf} e=0"
-    | .error .badCode => "spf 0 e=-5"
-    | .error .recurse => "spf 0 e=-14"
+    | .error .badCode => "spf 0 e=-3"
+    | .error .recurse => "spf 0 e=-10"
     | .error (.unsupported w) => "unsupported " ++ w
   | _ => "bad-op"
 
